@@ -400,6 +400,29 @@ def build_jobs(ctx):
                     n = rng.randint(6, 10)
                     for _ in range(2 if q else 4):
                         add(n, _rand_perm(rng, n), "random", und=und)
+                # --- sparse networks on 20..50 nodes, randomly renumbered: long chains, random forests,
+                #     G(n, 2/n), rings - structures whose processing order matters (deep search trees,
+                #     pieces grown separately and joined late) and that 10 nodes cannot hold
+                if row["maxn"] >= 10:
+                    for _ in range(max(1, int((2 if q else 8) * share))):
+                        n = rng.randint(20, 50)
+                        kind = rng.choice(["chain", "forest", "sparse", "ring"])
+                        if kind == "chain":
+                            edges = rc.s_path(n)
+                        elif kind == "ring":
+                            edges = rc.s_cycle(n)
+                        elif kind == "forest":
+                            edges = [(rng.randrange(v), v) for v in range(1, n) if rng.random() < 0.9]
+                        else:
+                            edges = [(i, j) for i in range(n) for j in range(i + 1, n) if rng.random() < 2.0 / n]
+                        lab = list(range(n))
+                        rng.shuffle(lab)                      # the first member of the pair is itself shuffled
+                        edges = [(min(lab[a], lab[b]), max(lab[a], lab[b])) for a, b in edges]
+                        S = _support(n, edges if und else rc.orient(rng, edges), und)
+                        j = _mkjob(row, label, vkey, rng, n, _rand_perm(rng, n), "sparse-big:" + kind, S,
+                                   rng.random() < 0.5, und)
+                        if j is not None:
+                            jobs.append(j)
     return jobs
 
 
